@@ -9734,7 +9734,9 @@ class NetCDFRead(IORead):
             return []
 
         # CF properties
-        properties = self.read_vars["variable_attributes"][connectivity_ncvar]
+        properties = self.read_vars["variable_attributes"][
+            connectivity_ncvar
+        ].copy()
         start_index = properties.pop("start_index", 0)
         cell_dimension = self._ugrid_cell_dimension(
             location, connectivity_ncvar, mesh
